@@ -1,4 +1,8 @@
 pub mod c01;
+pub mod c02;
+pub mod c03;
+pub mod c09;
+pub mod c18;
 
 use crate::engine::{Ctx, Verdict};
 use serde_json::Value;
@@ -28,6 +32,52 @@ pub fn all() -> Vec<PropInfo> {
                non-trivial = at least one window is emitted and (a foreign byte is present or k >= 16 or a lower-case/U base); \
                distinct by hash of (seq, k)",
         assumptions: &["bytes 0x00-0x03 are never generated (left unspecified by the property)", "k outside 1..=31 never generated"],
+        abort_is_violation: false,
+    },
+    PropInfo {
+        id: "C02",
+        run: c02::run,
+        replay: c02::replay,
+        shards: (8, 16),
+        watchdog: (300, 3600),
+        rule: "(a) every code x < 4^k enumerated for small k and sampled (uniform, extremes, palindromes, single-bit patterns, top digit set) for k up to 31: \
+               involution, agreement with text-level reverse complement, decode/encode round trip; non-trivial = x not in {0, 4^k-1}. \
+               (b) sequences x k: each pair's second component is the reverse complement of the first, the stream of the reverse-complemented text is the mirrored stream, \
+               canonical multisets agree; non-trivial = at least 2 windows and seq != its reverse complement; distinct by hash of the case",
+        assumptions: &["codes >= 4^k are never passed (unspecified)", "reverse complement of a foreign byte is itself; U complements to A"],
+        abort_is_violation: false,
+    },
+    PropInfo {
+        id: "C03",
+        run: c03::run,
+        replay: c03::replay,
+        shards: (4, 8),
+        watchdog: (300, 3600),
+        rule: "one evaluation = one (k, code) pair of the exhaustive enumeration of all 4^k codes (plus one structural check per k and one per header source); \
+               non-trivial = the code is canonical (its column is specified); entries of the k-mer->index vector at non-canonical codes are not inspected; distinct by (k, code)",
+        assumptions: &["header via the executable is checked for k in 3..=7 (the range the CLI accepts) and all three presets, in normalised and counts mode"],
+        abort_is_violation: false,
+    },
+    PropInfo {
+        id: "C09",
+        run: c09::run,
+        replay: c09::replay,
+        shards: (8, 16),
+        watchdog: (300, 3600),
+        rule: "(a) all strings over {A,C,G,T,N} up to a length bound crossed with a fixed list of small (w,m); (b) random (bytes, w, m) with m<=31, w<=m+60; \
+               iterator output compared with the model's maximal runs; non-trivial = the model has >= 2 runs, or >= 1 run and a foreign byte; distinct by enumeration / hash of the case",
+        assumptions: &["1 <= m <= w, m <= 31 by construction", "bytes 0x00-0x03 never generated"],
+        abort_is_violation: false,
+    },
+    PropInfo {
+        id: "C18",
+        run: c18::run,
+        replay: c18::replay,
+        shards: (8, 16),
+        watchdog: (300, 3600),
+        rule: "same generators as C09 with w <= 31; runs compared with the plain iterator (differential) and the concatenated k-mer lists with the model's canonical w-mers; \
+               non-trivial = (>= 2 runs or a foreign byte with >= 1 run) and >= 1 w-mer; distinct by enumeration / hash of the case",
+        assumptions: &["1 <= m <= w <= 31 by construction"],
         abort_is_violation: false,
     }]
 }
